@@ -42,6 +42,12 @@ var relatedNameGroups = [][]genName{
 	{{1, []byte("a@example.com")}, {1, []byte("A@EXAMPLE.COM")}},
 	{{6, []byte("http://example.com/")}, {6, []byte("HTTP://EXAMPLE.COM/")}, {6, []byte("mailto:a@example.com")}},
 	{{2, []byte("www..example.com")}, {2, []byte("a.example.com")}, {2, []byte("b.example.com")}},
+	{{2, []byte("1.1.168.192.in-addr.arpa")}, {2, []byte("1.1.1.1.0.0.0.0.0.0.0.0.0.0.0.0.0.0.0.0.0.0.7.4.0.0.7.4.6.0.6.2.ip6.arpa")}, {2, []byte("www.example.com")}},
+	{{2, []byte("8.8.8.8.in-addr.arpa")}, {2, []byte("1.0.0.0.0.0.0.0.0.0.0.0.0.0.0.0.0.0.0.0.0.0.0.0.8.b.d.0.1.0.0.2.ip6.arpa")}, {2, []byte("1.0.0.10.in-addr.arpa")}},
+	{{2, []byte("1.168.192.in-addr.arpa")}, {2, []byte("x.ip6.arpa")}, {2, []byte("1.1.168.192.in-addr.arpa")}},
+	{{2, []byte("a.onion")}, {2, []byte(strings.Repeat("a", 56) + ".onion")}, {2, []byte("www.example.com")}},
+	{{2, []byte("xn--caf-dma.example.com")}, {2, []byte("xn--bad!.example.com")}, {2, []byte("example.com")}},
+	{{2, []byte("example.invalidtld")}, {2, []byte("example.com")}, {2, []byte("192.168.0.1")}},
 	{{2, []byte(strings.Repeat("z", 64) + ".example.com")}, {2, []byte("a.example.com")}, {2, []byte("m.example.com")}},
 }
 
